@@ -37,7 +37,7 @@ TIME_LIMIT = {"quick": 40, "thorough": 560}
 SHARDS = 16
 CODECS = ["null", "deflate", "bzip2", "xz"]
 REACH = {
-    "quick": {"fa_files_appended": 300, "blocks_over_64k": 16, "fa_files_parsed": 600, "ref_files_read": 600, "files_with_empty_blocks": 50,
+    "quick": {"fa_files_appended": 300, "fa_files_block_copied": 100, "blocks_over_64k": 16, "fa_files_parsed": 600, "ref_files_read": 600, "files_with_empty_blocks": 50,
               "header_multi_chunk": 50, "codec_key_absent": 50, "is_avro_checked": 500,
               "blocks_tiled": 500, "fixtures_compared": 10},
     "thorough": {"fa_files_parsed": 10000, "ref_files_read": 10000},
@@ -79,9 +79,30 @@ def fa_to_ref(sh, fa, rng, case, recs):
     fo = io.BytesIO()
     split = rng.randint(0, len(recs)) if rng.random() < 0.25 else None
     first = list(recs) if split is None else list(recs[:split])
-    st, err = guard(fa.writer, fo, copy.deepcopy(js), first, codec=codec, sync_interval=interval,
-                    metadata=dict(meta) if meta else None, sync_marker=marker,
-                    codec_compression_level=rng.choice([None, 1, 9]) if codec == "deflate" else None)
+    if split is None and recs and rng.random() < 0.12:
+        # the file is assembled by copying the blocks of a donor file (Writer.write_block), some
+        # of them looked at before they are copied
+        def copy_blocks():
+            from fastavro.write import Writer
+            donor = io.BytesIO()
+            fa.writer(donor, copy.deepcopy(js), list(recs), codec=rng.choice(CODECS), sync_interval=rng.choice([0, 30, 16000]))
+            donor.seek(0)
+            w = Writer(fo, copy.deepcopy(js), codec=codec, sync_interval=interval, metadata=dict(meta) if meta else None, sync_marker=marker)
+            for k, block in enumerate(fa.block_reader(donor)):
+                if k % 2 == 0:
+                    it = iter(block)
+                    next(it, None)
+                    if k % 4 == 0:
+                        list(it)
+                w.write_block(block)
+            w.flush()
+        cfg["block_copy"] = True
+        st, err = guard(copy_blocks)
+        sh.count("fa_files_block_copied")
+    else:
+        st, err = guard(fa.writer, fo, copy.deepcopy(js), first, codec=codec, sync_interval=interval,
+                        metadata=dict(meta) if meta else None, sync_marker=marker,
+                        codec_compression_level=rng.choice([None, 1, 9]) if codec == "deflate" else None)
     if st == "exc":
         sh.violation("writer-raised", exc_name(err), info)
         return
